@@ -1,6 +1,7 @@
 (** S-expression codec between the harness and the model, and the model's
     entry point [run_case]. *)
 From Coq Require Import List ZArith NArith Bool Floats.SpecFloat.
+From AG Require Cli.
 From AG Require Import Str F64 Value Json Expr Ops Pipeline Filter Output Display Term Grammar.
 Import ListNotations.
 Open Scope string_scope.
@@ -430,6 +431,21 @@ Definition run_case (c : sexp) : sexp :=
         | Some q, Some lines =>
             match accepts q with
             | Some (f, stages) => enc_run (run_pipeline (fmatches f) stages lines)
+            | None => sym "reject"
+            end
+        | _, _ => sym "bad-case"
+        end
+      else sym "bad-case"
+  | SList [h; o; f] =>
+      if is_sym h "cli" then
+        let opt x := if is_sym x "none" then Some None else option_map Some (atom_str x) in
+        match opt o, opt f with
+        | Some o, Some f =>
+            match Cli.select_mode o f with
+            | Some Cli.CLegacy => sym "legacy"
+            | Some Cli.CJson => sym "json"
+            | Some Cli.CLogfmt => sym "logfmt"
+            | Some (Cli.CFormat t) => SList [sym "format"; sstr t]
             | None => sym "reject"
             end
         | _, _ => sym "bad-case"
